@@ -17,11 +17,14 @@ def showNats (s : List Nat) : String := " ".intercalate (s.map toString)
 def parseInt (s : String) : Option Int :=
   if s.startsWith "-" then (s.drop 1).toNat?.map (fun n => -(n : Int)) else s.toNat?.map (fun n => (n : Int))
 
+/-- strip the trailing newline of a line read by `getLine` -/
+def chomp (line : String) : String :=
+  if line.endsWith "\n" then String.ofList (line.toList.dropLast) else line
+
 partial def loop (h : IO.FS.Stream) (out : IO.FS.Stream) (f : String → String) : IO Unit := do
   let line ← h.getLine
   if line.isEmpty then return ()
-  let l := if line.endsWith "\n" then line.dropRight 1 else line
-  out.putStrLn (f l)
+  out.putStrLn (f (chomp line))
   loop h out f
 
 def run (f : String → String) : IO Unit := do
